@@ -167,11 +167,13 @@ type unit struct {
 	Reduce   bool   `json:"reduce,omitempty"`    // hostile: skip the interior of long string payloads (see positions)
 	StartEnc int    `json:"start_enc,omitempty"` // hostile: corpus encodings of this shard already completed by a worker that died since
 	// replay of one recorded case
-	TypeName string `json:"type_name,omitempty"`
-	InputHex string `json:"input_hex,omitempty"`
-	Choices  []int  `json:"choices,omitempty"`
-	OvIdx    int    `json:"ov_idx,omitempty"` // replay-rt: choice point whose byte string has length OvLen (0 = none)
-	OvLen    int    `json:"ov_len,omitempty"`
+	TypeName string     `json:"type_name,omitempty"`
+	InputHex string     `json:"input_hex,omitempty"`
+	Choices  []int      `json:"choices,omitempty"`
+	CutAll   int        `json:"cut_all,omitempty"` // streaming: encodings up to this length are cut into chunks in every possible way
+	Reader   *chunkSpec `json:"reader,omitempty"`  // replay-chunk
+	OvIdx    int        `json:"ov_idx,omitempty"`  // replay-rt: choice point whose byte string has length OvLen (0 = none)
+	OvLen    int        `json:"ov_len,omitempty"`
 }
 
 type executor struct {
@@ -192,6 +194,8 @@ type executor struct {
 	lastAlloc  uint64
 	ms         runtime.MemStats
 
+	composed      map[string]bool        // short encodings already cut in every way (per unit)
+	cutAll        int                    // encodings up to this length are cut in EVERY way
 	fitNote       map[string]interface{} // replay data of a payload-fitted value (see fit)
 	curSize       int                    // size of the input / encoding of the case being executed (the smallest failing one is reported)
 	lastPairRoot  *root
@@ -210,6 +214,11 @@ type batchCase struct {
 func newExec(reg *registry, roots []root, mark *marker, u *unit) *executor {
 	x := &executor{reg: reg, roots: roots, mark: mark, vidx: map[string]*violationRec{}, skip: map[int]bool{}, seen: map[uint64]struct{}{}}
 	x.unitID = u.ID
+	x.composed = map[string]bool{}
+	x.cutAll = u.CutAll
+	if x.cutAll == 0 {
+		x.cutAll = 10
+	}
 	x.fresh()
 	for _, s := range u.Skip {
 		x.skip[s] = true
@@ -385,7 +394,7 @@ func (x *executor) roundTrip(r *root, p reflect.Value, devs []string, choices []
 	}
 	x.distinct(e1)
 	x.curSize = len(e1)
-	entries := []string{epBytes}
+	entries := []string{epBytes, epReader} // the streaming entry point for EVERY value (see stream.go)
 	if allEntries {
 		entries = r.Entries
 	}
@@ -429,6 +438,18 @@ func (x *executor) roundTrip(r *root, p reflect.Value, devs []string, choices []
 		if !bytes.Equal(e, e2) {
 			x.violation("reencode-differs:"+firstDiffLeaf(x.reg, e, e2), fmt.Sprintf("%s via %s: enc(dec(enc(v))) != enc(v): %s vs %s", r.Name, ep, hexOf(e), hexOf(e2)), replay(map[string]interface{}{"entry": ep, "input": hexOf(e)}))
 		}
+	}
+	for _, ep := range entries {
+		if ep != epReader && ep != epReaderT {
+			continue
+		}
+		e := e1
+		if ep == epReaderT {
+			if c := guard(func() { e, err = encodeFor(ep, p) }); c.panicked || err != nil {
+				continue
+			}
+		}
+		x.chunkedValue(r, ep, p, e, x.cutAll)
 	}
 	return e1, true
 }
@@ -504,7 +525,21 @@ func (x *executor) hostile(r *root, ep string, fn decodeFn, class string, in []b
 	x.curSize = len(in)
 	var q reflect.Value
 	var err error
-	c := guard(func() { q, err = fn(in) })
+	var n0 int64
+	sfn := streamEntry(r.T, ep)
+	c := guard(func() {
+		if sfn != nil {
+			q, n0, err = sfn(&plainReader{b: in})
+		} else {
+			q, err = fn(in)
+		}
+	})
+	if sfn != nil && !c.panicked {
+		ref := streamRef{val: q, n: n0, err: err}
+		for _, spec := range hostileSpecs {
+			x.chunked(r, ep, sfn, in, ref, spec, "hostile:"+class)
+		}
+	}
 	x.res.Counters["hostile_decodes"]++
 	x.res.Counters["hostile:"+class]++
 	x.pairCount(r, ep)
@@ -704,6 +739,20 @@ func (x *executor) run(u *unit) *unitResult {
 					break
 				}
 				x.hostile(&x.roots[i], u.Entry, makeEntry(x.roots[i].T, u.Entry), "replay", in)
+			}
+		}
+	case "replay-chunk":
+		for i := range x.roots {
+			if x.roots[i].Name == u.TypeName && u.Reader != nil {
+				in, err := hex.DecodeString(u.InputHex)
+				if err != nil {
+					x.res.Err = "replay: input is truncated in the replay file: " + err.Error()
+					break
+				}
+				sfn := streamEntry(x.roots[i].T, u.Entry)
+				var ref streamRef
+				guard(func() { ref.val, ref.n, ref.err = sfn(&plainReader{b: in}) })
+				x.chunked(&x.roots[i], u.Entry, sfn, in, ref, *u.Reader, "replay")
 			}
 		}
 	case "replay-rt":
